@@ -93,7 +93,8 @@ class C01(Cfg):
                   "with the destination id (#2), the source row re-signed by a reference deletion that removes nothing (#3a), the unguarded reference deletion on sys.Room (#32) "
                   "- all FIXED in /repo since (c887d69, cfb7678, 456214b, f1df104; replays kept as regression cases) - and, still open: the right of a reference deletion judged "
                   "on the reference's author (#3b), incoming references removed with a deleted row; the guarded statement is proved for any switch values. Room mutations: the caller of an accepted room mutation is admin in the resulting room or only "
-                  "adds users to groups it administers. The model is tied to /repo by running both on generated operation sequences and comparing verdict and the full "
+                  "adds users to groups it administers; the run's oracle judges every accepted room update on the definition BEFORE it (admins, rights, user admins, new groups "
+                  "need a room admin at the op's date; a group's users a room admin or that group's user admin) and the generator makes user admins that are not room admins try each of these. The model is tied to /repo by running both on generated operation sequences and comparing verdict and the full "
                   "content of _node, _edge and both deletion logs after every operation.")
     level_note = ("Trusted: Lean kernel, the hand-written model lean/DiscretModel/Model/LocalWrite.lean (+Room, RoomBuild) and its harness. Modelled and exercised: "
                   "mutation_query.rs (plan), authorisation_service.rs validate_* (local), deletion.rs. Mutation trees are limited to depth two (an entity and the "
@@ -133,19 +134,38 @@ class C01(Cfg):
                 if out != "ok": continue
                 r, caller, d = int(a["r"]), int(a["k"]), int(a["d"])
                 was_known = r in defs
-                before_admin = was_known and defs[r].is_admin(caller, d)
-                rd = defs.setdefault(r, RoomDef())
-                rd.apply(a)
-                # (c) a definition is changed only by its admins; its users also by the group's user admins
                 gs = [g for g in a.get("grp", "").split(",") if g]
-                has_entries = bool(a.get("adm")) or any(a.get("g%s.%s" % (g, t)) for g in gs for t in ("r", "u", "ua"))
-                only_users = not a.get("adm") and not any(a.get("g%s.r" % g) or a.get("g%s.ua" % g) for g in gs)
-                ua_clause = only_users and all(rd.user_admin(int(g), caller, d) for g in gs if a.get("g%s.u" % g))
-                admin_clause = ((not was_known) or before_admin) and rd.is_admin(caller, d)
-                if has_entries and not (admin_clause or ua_clause):
-                    res.append(("room-changed-by-non-admin",
-                                "line %d: %s accepted, but key %d is neither admin (before and after) nor user admin of the groups whose users it changes, at %d"
-                                % (i, op, caller, d)))
+                if was_known:
+                    # (c) an accepted UPDATE, judged on the definition BEFORE the op at the op's date: admins, rights,
+                    # user admins and new groups need a room admin; the users of a group need a room admin or a user
+                    # admin of that group
+                    before = defs[r]
+                    is_admin = before.is_admin(caller, d)
+                    lacking = []
+                    if not is_admin:
+                        if a.get("adm"): lacking.append("admins")
+                        for g in gs:
+                            if int(g) not in before.groups: lacking.append("new group %s" % g)
+                            if a.get("g%s.r" % g): lacking.append("rights of group %s" % g)
+                            if a.get("g%s.ua" % g): lacking.append("user admins of group %s" % g)
+                            if a.get("g%s.u" % g) and not before.user_admin(int(g), caller, d):
+                                lacking.append("users of group %s" % g)
+                    if lacking:
+                        res.append(("room-definition-changed-without-admin-right",
+                                    "line %d: %s accepted, but before it key %d is not admin of room %d at %d%s: it changed %s"
+                                    % (i, op, caller, r, d,
+                                       " (it is user admin of group(s) %s)" % ",".join(str(g) for g in sorted(before.groups) if before.user_admin(g, caller, d))
+                                       if any(before.user_admin(g, caller, d) for g in before.groups) else "",
+                                       ", ".join(lacking))))
+                    before.apply(a)
+                else:
+                    rd = defs.setdefault(r, RoomDef())
+                    rd.apply(a)
+                    # a creation with entries: the creator is admin of what it creates
+                    has_entries = bool(a.get("adm")) or any(a.get("g%s.%s" % (g, t)) for g in gs for t in ("r", "u", "ua"))
+                    if has_entries and not rd.is_admin(caller, d):
+                        res.append(("room-changed-by-non-admin",
+                                    "line %d: %s accepted, but key %d is not admin of the room it creates, at %d" % (i, op, caller, d)))
                 continue
             if k == "deladm":
                 if out.startswith("ok"):
